@@ -13,3 +13,35 @@ Definition c11_tables (cells rf : list (list nat)) : tables :=
 
 (* all facets marked: uniform refinement *)
 Definition all_marked (cells rf : list (list nat)) : list bool := repeat true (length (entities true cells rf)).
+
+(* with edges as well (3-D): edges = build_entities(t, refdom.edges)[0], t2e likewise *)
+Definition c11_tables3 (cells rf re : list (list nat)) : tables :=
+  {| tb_t := cells; tb_edges := entities true cells re; tb_facets := entities true cells rf;
+     tb_t2e := map (fun k => map (fun a => nth k (nth a (mapping cells re) []) 0) (seq 0 (length re)))
+                   (seq 0 (length cells));
+     tb_t2f := map (fun k => map (fun a => nth k (nth a (mapping cells rf) []) 0) (seq 0 (length rf)))
+                   (seq 0 (length cells)) |}.
+
+(* the invariant of refinement: every cell has nn pairwise distinct vertices, all of them existing points *)
+Definition cell_ok (nn np : nat) (c : list nat) : Prop := NoDup c /\ length c = nn /\ Forall (fun v => v < np) c.
+Definition cells_ok (nn np : nat) (t : list (list nat)) : Prop := Forall (cell_ok nn np) t.
+
+(* new vertices stacked as [p; edge nodes; facet nodes; cell nodes] with cE, cF, cC nodes of each kind *)
+Definition canon_offs (np cE cF : nat) : offs := {| offE := np; offF := np + cE; offC := np + cE + cF |}.
+
+(* finite checks on templates used by the invariant theorems *)
+Fixpoint nodup_nref (l : list nref) : bool :=
+  match l with [] => true | x :: r => negb (existsb (nref_eqb x) r) && nodup_nref r end.
+Definition nref_inb (nn nre nrf : nat) (r : nref) : bool :=
+  match r with NV i => i <? nn | NE j => j <? nre | NF j => j <? nrf | NC => true end.
+Definition tpls_okb (nn nre nrf : nat) (tpls : list (list nref)) : bool :=
+  forallb (fun tpl => nodup_nref tpl && forallb (nref_inb nn nre nrf) tpl && (length tpl =? nn)) tpls.
+Definition uses (e : ekind) (tpls : list (list nref)) : bool :=
+  existsb (existsb (fun r => match r, e with NE _, KE | NF _, KF | NC, KC => true | _, _ => false end)) tpls.
+
+(* adaptive templates: a class with pattern pat uses only vertices and the nodes of its MARKED facets *)
+Definition adapt_okb (blocks : list (list bool * list (list nref))) : bool :=
+  forallb (fun b => (length (fst b) =? 3) &&
+     forallb (fun tpl => nodup_nref tpl && (length tpl =? 3) &&
+                forallb (fun r => match r with NV i => i <? 3 | NF j => (j <? 3) && nth j (fst b) false | _ => false end) tpl)
+             (snd b)) blocks.
